@@ -16,8 +16,6 @@ import (
 func pinnedPool(spec itemSpec, blockedAcct spelled) (admitted bool, n *node, it *built) {
 	n = getNode(false, 1)
 	it = n.w.buildItem(spec, map[who]bool{blockedAcct.who: true})
-	c := &caseSpec{Node: 1, Blocked: []spelled{blockedAcct}, Items: []itemSpec{spec}}
-	_ = c
 	setBlacklist([]spelled{blockedAcct})
 	defer types.SetBlockedAccountsForTest(nil)
 	switch spec.Route {
